@@ -14,9 +14,10 @@ NO_FTS = {"unscheduled", "history", "makespan_reward", "idle_reward"}
 
 class Check(PropertyCheck):
     ID = "C12"
-    LEAN_MODULE = "JobShopProofs.ResetFresh"
+    LEAN_MODULE = "JobShopProofs.EnvEpisodes"
     THEOREMS = ["JS.C12_dispatcher", "JS.C12_reset_isolated", "JS.C12_reset_history_rewards", "JS.C12_trace_after_reset",
-                "JS.finv_reset", "JS.C12_fresh_fixpoint", "JS.C12_reset_forgets", "JS.C12_world"]
+                "JS.finv_reset", "JS.C12_fresh_fixpoint", "JS.C12_reset_forgets", "JS.C12_world",
+                "JS.Env.make_is_run", "JS.C12_env_reset_fresh", "JS.C12_env_episodes_equal"]
     RULE = ("random instance x filter x random set and creation order of the built-in observers (seven feature observers "
             "with random feature-type subsets, helpers created lazily or eagerly beforehand, unscheduled, history, both "
             "rewards, composite); a first episode of random length (possibly partial, possibly only zero-duration "
